@@ -134,6 +134,35 @@ theorem routing_spec (ord : List S → List S) (hord : ∀ l x, x ∈ ord l ↔ 
     have := List.findSome?_eq_none_iff.mp hnone k ((hord tys k).mpr hkt)
     simp [hs1, hdef1] at this
 
+/-- **Judge soundness (routing), first-order form**: whatever produced the observation, if `callOk`
+    accepts it then either it is "not available", nothing was sent and **no** offered service
+    defines the action, or exactly one request was sent, to an offered service that defines it. -/
+theorem callOk_sound (off : List Svc) (act : S) (o : CallObs) (h : callOk off act o = true) :
+    (o.na = true ∧ o.sent = [] ∧ ∀ s ∈ off, act ∉ s.acts)
+    ∨ (o.na = false ∧ ∃ s ∈ off, o.sent = [s.cid] ∧ act ∈ s.acts) := by
+  unfold callOk at h
+  cases hna : o.na with
+  | true =>
+    left
+    simp only [hna, if_true, Bool.and_eq_true, List.all_eq_true] at h
+    refine ⟨rfl, List.isEmpty_iff.mp h.1, ?_⟩
+    intro s hs hm
+    have := h.2 s hs
+    simp [hm] at this
+  | false =>
+    right
+    simp only [hna, Bool.false_eq_true, if_false] at h
+    refine ⟨rfl, ?_⟩
+    cases hs : o.sent with
+    | nil => simp [hs] at h
+    | cons i r =>
+      cases r with
+      | cons _ _ => simp [hs] at h
+      | nil =>
+        simp only [hs, List.any_eq_true, Bool.and_eq_true, beq_iff_eq] at h
+        obtain ⟨s, hs', hc, ha⟩ := h
+        exact ⟨s, hs', by rw [hc], by simpa using ha⟩
+
 /-! ### the tables of the current source -/
 
 /-- every alias a facade method defaults to is a key of `_SERVICE_TYPES` -/
@@ -174,6 +203,80 @@ theorem igd_routing_spec (ord : List S → List S) (hord : ∀ l x, x ∈ ord l 
   cases hg : get? Gen.C20Igd.igdServiceTypes a with
   | none => simp [hg] at hc
   | some tys => exact ⟨a, ha, tys, hg, by simpa [hg] using hc⟩
+
+/-- **A gateway as the quantifier describes it satisfies `stdGateway`**: every service type is
+    offered once (`hd`) and the action is defined only by services of its own family (`hfam`; a
+    service may define any subset of its actions — omissions are allowed). -/
+theorem stdGateway_of_standard (d : Dev) (act : S)
+    (hfam : ∀ p ∈ allServices d, act ∈ p.2.acts → p.1 ∈ specFamily act)
+    (hd : (keys (allServices d)).Nodup) : stdGateway d act = true := by
+  simp only [stdGateway, Bool.and_eq_true, List.all_eq_true]
+  constructor
+  · intro p hp
+    cases hc : p.2.acts.contains act with
+    | false => rfl
+    | true => simpa using hfam p hp (by simpa using hc)
+  · intro p hp
+    cases hc : p.2.acts.contains act with
+    | false => rfl
+    | true =>
+      have hf : findService d p.1 = some p.2 := by
+        rw [findService_eq, ← get?_eq_find?]
+        exact get?_of_mem_nodup hd hp
+      simp [hf]
+      simpa using hc
+
+/-- **Routing for every configuration of the quantifier**, without the driver-evaluated predicate:
+    every service type offered once, each service defining any subset of the actions of its own
+    family; every set order; every facade operation of the current source. -/
+theorem igd_routing_standard (ord : List S → List S) (hord : ∀ l x, x ∈ ord l ↔ x ∈ l) (d : Dev)
+    (r : OpRow) (hr : r ∈ Gen.C20Igd.igdOps) (hd : (keys (allServices d)).Nodup)
+    (hfam : ∀ p ∈ allServices d, r.action ∈ p.2.acts → p.1 ∈ specFamily r.action) :
+    callOk (offered d) r.action (obsOf (route ord Gen.C20Igd.igdServiceTypes d r)) = true :=
+  igd_routing_spec ord hord d r hr (stdGateway_of_standard d r.action hfam hd)
+
+/-- the five service types of the property's quantifier -/
+def fiveTypes : List S := [tyIP1, tyIP2, tyPPP1, tyCIC1, tyL3F1]
+
+/-- **All 32 subsets, everything on one device** (the root itself, or — the tree search being the
+    same — one embedded WAN device below a root without services): `types` is any sub-list of the
+    five service types, `acts` gives every offered service an arbitrary subset of its family's
+    actions (`hacts`).  Every facade operation satisfies the judge. -/
+theorem igd_routing_subsets (ord : List S → List S) (hord : ∀ l x, x ∈ ord l ↔ x ∈ l)
+    (types : List S) (hsub : types.Sublist fiveTypes) (acts : S → List S) (dty wty : S) (embedded : Bool)
+    (r : OpRow) (hr : r ∈ Gen.C20Igd.igdOps)
+    (hacts : ∀ t ∈ types, r.action ∈ acts t → t ∈ specFamily r.action) :
+    let svcs : List (S × Svc) := types.zipIdx.map fun p => (p.1, ⟨p.1, p.2, acts p.1⟩)
+    let d : Dev := if embedded then .mk dty [] [(wty, .mk wty svcs [])] else .mk dty svcs []
+    callOk (offered d) r.action (obsOf (route ord Gen.C20Igd.igdServiceTypes d r)) = true := by
+  intro svcs d
+  have hall : allServices d = svcs := by
+    cases embedded <;> simp [d, allServices, allServicesSubs]
+  have hkeys : keys svcs = types := by
+    simp only [svcs, keys, List.map_map]
+    have : ((fun p : S × Svc => p.1) ∘ fun p : S × Nat => (p.1, (⟨p.1, p.2, acts p.1⟩ : Svc))) = fun p => p.1 := rfl
+    rw [this]
+    exact List.zipIdx_map_fst _ _
+  apply igd_routing_standard ord hord d r hr
+  · rw [hall, hkeys]
+    exact hsub.nodup (by decide)
+  · intro p hp hact
+    rw [hall] at hp
+    obtain ⟨q, hq, rfl⟩ := List.mem_map.mp hp
+    have hq1 : q.1 ∈ types := by
+      have := List.mem_map_of_mem (f := Prod.fst) hq
+      rwa [List.zipIdx_map_fst] at this
+    exact hacts q.1 hq1 hact
+
+/-- non-vacuity of `igd_routing_subsets`: a PPP + common-interface gateway whose PPP service
+    omits everything but two actions satisfies `hsub` and `hacts` for the address query -/
+example :
+    let types := [tyPPP1, tyCIC1]
+    let acts : S → List S := fun t =>
+      if t = tyPPP1 then ["GetExternalIPAddress".toList, "GetStatusInfo".toList] else ["GetTotalBytesSent".toList]
+    types.Sublist fiveTypes
+    ∧ ∀ t ∈ types, "GetExternalIPAddress".toList ∈ acts t → t ∈ specFamily "GetExternalIPAddress".toList := by
+  refine ⟨by decide, by decide⟩
 
 /-- the model's "does the getter ask at all" equals the judge's "some offered service defines the
     action" (used by the driver to turn scripted readings into `Raw.na`) -/
@@ -243,6 +346,25 @@ example :
 
 /-! ## Part 2 — counters -/
 
+/-- **The counter arithmetic of the source is the model's**: each of the four getters tests
+    `total < 0`, then sets its offset to the model's `offsetConst` (2³¹) and returns
+    `total + offset`; `_derive_value_per_second` returns None on `last_value > current_value`,
+    divides by the model's `kibConst` (1024) exactly for the two byte counters and then by
+    `delta_time.total_seconds()`; the poll gathers the six getters in the model's order with
+    `return_exceptions=True` and its only `raise` sits under `if not non_exceptions`.
+    (`2**30`, `/1000`, `return_exceptions=False`, a reordered gather … break this theorem.) -/
+theorem igd_counter_pins :
+    Gen.C20Igd.igdCounterPins =
+      { negTests := [true, true, true, true],
+        offsets := [offsetConst, offsetConst, offsetConst, offsetConst],
+        wrapTest := true, kib := kibConst,
+        kibNames := ["bytes_received".toList, "bytes_sent".toList],
+        perSecond := true,
+        gatherOrder := ["async_get_total_bytes_received".toList, "async_get_total_bytes_sent".toList,
+          "async_get_total_packets_received".toList, "async_get_total_packets_sent".toList,
+          "async_get_status_info".toList, "async_get_external_ip_address".toList],
+        returnExceptions := true, raiseOnlyWithoutResult := true } := by decide
+
 /-- timestamps of successive samples strictly increase (first one after construction time) -/
 def increasing (t0 : Int) : List (Int × Readings) → Prop
   | [] => True
@@ -292,7 +414,7 @@ theorem sample_fields (st : IgdSt) (t : Int) (r : Readings) (s : Sample)
 
 theorem readTotal_nonneg (off : Int) (r : Raw) (h : 0 ≤ off) (hr : inRange r) :
     nonnegOk (readTotal off r).2 = true := by
-  cases r <;> simp [readTotal, nonnegOk]
+  cases r <;> simp [readTotal, nonnegOk, offsetConst]
   simp [inRange] at hr
   split <;> omega
 
@@ -333,7 +455,7 @@ theorem rate_spec (isBytes : Bool) (tNow tLast : Int) (cur last : Val) :
   · intro c l hc hl hle ht
     subst hc hl
     have h : ¬ l > c := by omega
-    refine ⟨⟨(c - l) * 1000000, (if isBytes then 1024 else 1) * (tNow - tLast)⟩, by simp [derive, h], rfl, rfl,
+    refine ⟨⟨(c - l) * 1000000, (if isBytes then 1024 else 1) * (tNow - tLast)⟩, by simp [derive, h, kibConst], rfl, rfl,
       Int.mul_nonneg (by omega) (by omega), ?_⟩
     cases isBytes <;> simp <;> omega
 
@@ -392,6 +514,16 @@ example :
     ∧ rounded 2932030030059323 9007199254740992 (1000 * 1125899906842624) (1024 * 3377700846427779)
     ∧ approx ⟨2932030030059323, 9007199254740992⟩ (1000 * 1000000) (1024 * 3000001) = true := by
   refine ⟨by unfold rounded; decide, by unfold rounded; decide, by decide⟩
+
+/-- **the excluded point, visible**: with no time between two samples (`tNow = tLast`) the code
+    raises `ZeroDivisionError` out of the whole poll; the model does not reproduce that (it yields a
+    fraction with denominator 0) and the judge `rateOk` does not judge there (nor for a clock running
+    backwards).  `series_spec` therefore assumes strictly increasing timestamps (`increasing`), a
+    hypothesis the written quantifier does not grant — see design/C20.md, "Clause-by-clause". -/
+example :
+    derive true 5 (.int 10) 5 (.int 3) = some ⟨7000000, 0⟩
+    ∧ rateOk true 5 5 (.int 3) (.int 10) none = true
+    ∧ rateOk true 10 5 (.int 3) (.int 10) (some ⟨-1, 1⟩) = true := by decide
 
 /-- the first sample of a fresh profile carries no rate -/
 theorem first_sample_no_rates (t0 t : Int) (r : Readings) (s : Sample)
